@@ -13,12 +13,16 @@
      poolEmpty  the private slot of the attribute pool is empty (right after a collection)
      alias      logger whose OWN attribute array sits in the attribute pool (0 = none)
      dirty      loggers whose own attributes were overwritten through such an alias
+   (the pooled formatter object also OWNS the bytes of the record it formatted: the argument a
+   destination's Write receives is a view of them.  That needs no state of its own here - whether
+   the view is still intact when the destination reads it depends only on WHEN the object goes
+   back to the pool and on whether somebody formats a record in between: a destination that logs.)
 
    Variant "faithful" transcribes the library as it is: the continuation lines are consulted by
    the colored path only and re-assigned by every colored record, nothing is memoised, a record
    always formats a pooled COPY of the logger's attributes, the error dump depends on the
    process kind sampled at start-up.  Invariant NoLeak (MechOut = what Expect demands, for every
-   logger and record class, in every reachable state) holds for it.  The five other variants
+   logger and record class, in every reachable state) holds for it.  The six other variants
    are the sloppy disciplines the history component of the checks is built to catch on the real
    code; TLC must VIOLATE NoLeak for each of them (vacuity check of the invariant and of the
    event vocabulary: the counterexamples are exactly the shapes of history the driver covers):
@@ -28,7 +32,12 @@
      debug-live      the error dump follows the live debug switch instead of the process kind
      fg-only-close   the closing reset of a message line is written only after a foreground colour
                      (no hidden state: the leak needs the event SetColors - a configuration neither
-                     RegisterLevel nor the built-in table produces - and a multi-line record) *)
+                     RegisterLevel nor the built-in table produces - and a multi-line record)
+     early-release   the formatter object goes back to the pool as soon as the record is formatted,
+                     the destinations are written afterwards ("a slow writer must not pin a pooled
+                     object"): a destination that logs before it reads its argument makes the
+                     nested record draw that very object and format over the bytes the outer Write
+                     still holds (the leak needs the event Wire: passive destinations see nothing) *)
 EXTENDS EncoderHist
 
 CONSTANT Variant
@@ -49,7 +58,8 @@ TheTag(s, sev) == CHOOSE x \in ExpTagSrc(s, sev) \ {"other"} : TRUE
 ExpLines(rec) == IF rec.fmt # "json" /\ DumpAllowed(rec) THEN "dump"
                  ELSE IF rec.fmt = "color" THEN "layout" ELSE "one"
 ExpOut(s, l, r) == LET e == Expect(s, l, r) IN
-    [lines |-> ExpLines(e.rec), tag |-> IF e.rec.fmt = "color" THEN e.tag ELSE {}, attrs |-> "own", clean |-> TRUE]
+    [lines |-> ExpLines(e.rec), tag |-> IF e.rec.fmt = "color" THEN e.tag ELSE {}, attrs |-> "own", clean |-> TRUE,
+     payload |-> [j \in DOMAIN Deliveries(s, l, r) |-> "own"]]
 
 \* ---- what an implementation of discipline Variant produces
 MechLines(s, m, l, r) ==
@@ -71,9 +81,18 @@ MechClean(s, l, r) ==
     LET lc == LcOf(s, RecClasses[r].sev) IN
     ~(/\ Variant = "fg-only-close" /\ s.mode[l] = "color" /\ IsMulti(r)
       /\ lc.set /\ lc.fg = "none" /\ lc.bg # "none")
+\* whose bytes a destination finds in its argument when it reads it, per delivery: with the object released before
+\* the destinations are written, a record formatted in between (by this destination or an earlier one of the same
+\* record, unless it is passive because it is inside its own Write further out) has overwritten them.  `act` of a
+\* delivery at depth > 0 is not reconstructed: a nested record whose own destination logs is counted as overwritten
+\* only at depth 0, which is enough for the witness.
+MechPayload(s, l, r) ==
+    LET D == Deliveries(s, l, r) IN
+    [j \in DOMAIN D |-> IF Variant = "early-release" /\ D[j].d = 0 /\ (DestLogs(s, D[j]) \/ EarlierLogs(s, D[j]))
+                         THEN "foreign" ELSE "own"]
 MechOut(s, m, l, r) ==
     [lines |-> MechLines(s, m, l, r), tag |-> MechTag(s, m, l, r),
-     attrs |-> IF l \in m.dirty THEN "foreign" ELSE "own", clean |-> MechClean(s, l, r)]
+     attrs |-> IF l \in m.dirty THEN "foreign" ELSE "own", clean |-> MechClean(s, l, r), payload |-> MechPayload(s, l, r)]
 
 \* ---- how the hidden state moves
 MEmit(s, m, l, r) ==
@@ -100,6 +119,7 @@ MNext ==
     \/ \E w \in Widths : SetWidth(w) /\ mech' = [mech EXCEPT !.memo = NoMemo]
     \/ \E m \in MinWidths : SetMinW(m) /\ mech' = mech
     \/ \E v \in ColSevs, f \in ColFgs, b \in ColBgs : SetColors(v, f, b) /\ mech' = mech
+    \/ \E l \in Loggers, w \in DestIds : Wire(l, w) /\ mech' = mech
 
 MSpec == MInit /\ [][MNext]_mvars
 
@@ -107,5 +127,5 @@ MSpec == MInit /\ [][MNext]_mvars
 \* class what the statements demand in the current visible configuration
 NoLeak == \A l \in Loggers, r \in RcIds :
             LET m == MechOut(st, mech, l, r)  e == ExpOut(st, l, r)
-            IN m.lines = e.lines /\ m.attrs = e.attrs /\ m.tag \subseteq e.tag /\ m.clean = e.clean
+            IN m.lines = e.lines /\ m.attrs = e.attrs /\ m.tag \subseteq e.tag /\ m.clean = e.clean /\ m.payload = e.payload
 =============================================================================
